@@ -436,6 +436,13 @@ func runConnInner(args []string) string {
 		req.Header.Set("last-event-ID", string(unhx(strings.SplitN(args[3][2:], "+", 2)[0])))
 	}
 	c := client.NewConnection(req)
+	// a Connection keeps the configuration it was created with: what is done to the Client value afterwards (reused for
+	// another connection, say) is nothing to it
+	onRetry := client.OnRetry
+	client.Backoff = sse.Backoff{InitialInterval: time.Nanosecond, Multiplier: 1, Jitter: -1, MaxRetries: -1} // (no retries at all)
+	client.OnRetry = nil
+	client.ResponseValidator = func(*http.Response) error { return errors.New("verif: the validator of a later connection") }
+	_ = onRetry
 	if i := strings.Index(args[3], "+b:"); i >= 0 {
 		// Connection.Buffer with a caller-provided buffer: the same backing array serves every (re)connection
 		f := strings.Split(strings.SplitN(args[3][i+3:], "+", 2)[0], ":")
@@ -695,12 +702,21 @@ func runReg(args []string) string {
 	var wrongType []string
 	armCancel := false
 	nEvents := 0
+	hbSent := map[int]bool{}
+	hbLog := map[int][]int{} // per event index: the callbacks that were given the data-less event sent right before it
 	mkcb := func(k int, want *string) sse.EventCallback {
 		return func(e sse.Event) {
 			mu.Lock()
 			defer mu.Unlock()
 			if evIdx < 0 {
 				ordOK = false
+				return
+			}
+			if e.Data == "" { // (every other event of these scripts has data)
+				hbLog[evIdx] = append(hbLog[evIdx], k)
+				if want != nil && e.Type != *want {
+					wrongType = append(wrongType, fmt.Sprint(k))
+				}
 				return
 			}
 			if armCancel {
@@ -755,6 +771,14 @@ func runReg(args []string) string {
 				if t != "" {
 					text = "event: " + t + "\n" + text
 				}
+				if t != "" && nEvents%4 == 2 {
+					// a typed event without data (a heartbeat) right before: dispatched, with its type, to the same callbacks
+					mu.Lock()
+					hb := fmt.Sprintf("event: %s\n\n", t) // the type is all it has
+					hbSent[evIdx] = true
+					mu.Unlock()
+					text = hb + text
+				}
 				body.feed <- []byte(text)
 				<-body.waiting
 			} else {
@@ -775,6 +799,15 @@ func runReg(args []string) string {
 	}
 	if len(wrongType) > 0 {
 		ord = "wrong-type:" + strings.Join(wrongType, ",")
+	}
+	// a data-less typed event goes to the callbacks the event after it (same type) goes to
+	for i := range hbSent {
+		a, b := append([]int(nil), hbLog[i]...), append([]int(nil), log[i]...)
+		sort.Ints(a)
+		sort.Ints(b)
+		if fmt.Sprint(a) != fmt.Sprint(b) {
+			ord = fmt.Sprintf("heartbeat-misrouted:event%d:%v-vs-%v", i, a, b)
+		}
 	}
 	return showRegLog(log) + " | ord=" + ord
 }
